@@ -47,7 +47,7 @@ Print Assumptions C17_builtin_unknown_key.
 
 (* Defaults kept: decoding never zeroes.  A struct field whose key is not written (or written as null) keeps its
    current value; an option of a component that is not written keeps the REGISTERED default of that component
-   (and the component's config passed its validate tags). *)
+   (and the component's config passed its validate tags and the constraints its constructor enforces). *)
 Theorem C17_defaults_kept :
   forall env prop orc orcq reg lz,
   (forall F nl fs cur kvs r,
@@ -61,6 +61,7 @@ Theorem C17_defaults_kept :
      plugin_entry reg iface kvs = Some e -> e_conf e = Some (SStruct nl fs, d) -> entry_lazy lz fk e = false ->
      exists name rs, r = CPlugin name false (CStruct rs) /\
        validate orc (CStruct rs) (SStruct nl fs) = true /\
+       ctor_ok (SStruct nl fs) (CStruct rs) = true /\
        forall i f, nth_error (flat_fields (SStruct nl fs)) i = Some f ->
          unwritten F (f_key f) (filter (fun kv => negb (is_type_key kv)) kvs) ->
          nth_error rs i = Some (cur_at (struct_cur (SStruct nl fs) d) i f)).
